@@ -28,7 +28,7 @@ def run_seq(ctx, n):
         fl = row[0]
         if fl & 4:
             prop.append(c)
-        elif fl & 3:
+        elif fl & 11:
             tie.append((c, fl))
     return cases, tie, prop
 
